@@ -92,7 +92,7 @@ def case_direction(case):
             return ('err', str(e))
 
     try:
-        for res, pc, tr in c.explore(run, budget_s=3000):
+        for res, pc, tr in c.explore(run, budget_s=9000):
             n['paths'] += 1
             if res[0] == 'err':
                 n['err'] += 1
